@@ -281,8 +281,8 @@ def run(chk):
                 r3.require(ok, f"{fna.key}|sign-branch:{side}:{ty}", fna.where(n), f"from_np_arrays: a negative single slope must give the heating type with exactly the hdd_* fields (and vice versa); found type {ty}, set {sorted(vals)}, None {sorted(nones)}",
                            sample={"side": side, "type": ty, "fields": sorted(vals)})
     # (b) reduce_model interpreted over zero patterns x orderings
-    rm = chk.repo.module(OR).functions.get("reduce_model")
-    gk = chk.repo.module(OR).functions.get("get_k")
+    rm = chk.repo.try_func(OR, "reduce_model")
+    gk = chk.repo.try_func(OR, "get_k")
     gsc = chk.repo.func(BM, "get_smooth_coeffs")
     if rm is None or gk is None:
         raise AnalysisError("reduce_model / get_k vanished")
